@@ -4,8 +4,10 @@ import json
 import lang
 
 
-def impl_requests(progs, H, extra_text=None):
-    return [{'cmd': 'solve', 'texts': [lang.prog_txt(p) + (extra_text or '')], 'imax': H + 1, 'istop': 'UNKNOWN'} for p in progs]
+def impl_requests(progs, H, extra_text=None, limit=0, hmax=None):
+    """hmax: per-program largest horizon worth running (e.g. the oracle's bit bound); limit: answer sets enumerated per horizon (0 = all)"""
+    return [{'cmd': 'solve', 'texts': [lang.prog_txt(p) + (extra_text or '')], 'imax': (H if hmax is None else min(H, hmax[i])) + 1, 'istop': 'UNKNOWN', 'limit': limit}
+            for i, p in enumerate(progs)]
 
 
 def impl_models_by_h(ans, A, H):
@@ -20,7 +22,8 @@ def impl_models_by_h(ans, A, H):
 
 def compare(ctx, progs, H, maxbits=12, timeout=30, cmd='tsm', atoms_extra=None):
     """returns one record per program: status in agree / differ / implerror / skip / oracleerror"""
-    impl = ctx.impl().run(impl_requests(progs, H), timeout=timeout)
+    hmax = [max(0, maxbits // max(1, lang.atoms_of(p).n() + len(atoms_extra or [])) - 1) for p in progs]
+    impl = ctx.impl().run(impl_requests(progs, H, hmax=hmax), timeout=timeout)
     lines, index = [], []
     As = []
     for i, p in enumerate(progs):
@@ -175,7 +178,7 @@ def value_check(ctx, items, H, timeout=40, cap=None):
     cap = cap or (24 if ctx.quick else 200)
     rng = ctx.rng('value_check_sample')
     progs = [witness_program(c, fs) for c, fs in items]
-    impl = ctx.impl().run(impl_requests(progs, H), timeout=timeout)
+    impl = ctx.impl().run(impl_requests(progs, H, limit=(600 if ctx.quick else 3000)), timeout=timeout)
     lines, index = [], {}
     pre = []
     for i, ((c, fs), ans) in enumerate(zip(items, impl)):
